@@ -83,8 +83,9 @@ CLAIMED = {
     'C03': dict(
         text='The effective attempts_before_update trigger is executed symbolically (NULL-aware) for an arbitrary UPDATE and inside every real statement that writes '
         'attempts (5 procedures + the driver\'s embedded billing update, closed-world scan): for all OLD rows satisfying the table invariant and all arguments, '
-        'billed time is bounded by end-start, never decreases except on an earlier end or activation timeout, start only moves earlier, reason/end freeze, and the invariant is re-established.',
-        note=COMMON_NOTE + 'Assumed: each procedure call is atomic (serialisable isolation); MySQL NULL/boolean semantics as encoded in vc/sqlvc.py; integer column widths sufficient; SQL cannot be executed in this sandbox so counter-models are rows (VIOLATION ... no-failing-input-found). ' + 'Call-site facts used as preconditions are listed in evidence (non-NULL time/reason arguments; NULL end only for attempts without recorded times).',
+        'billed time is bounded by end-start, never decreases except on an earlier end or activation timeout, start only moves earlier, reason/end freeze, and the invariant is re-established; '
+        'an attempt marked as an activation timeout keeps start NULL (bills nothing) under every later report and a start wiped by the timeout never comes back. One known finding (late mark_job_complete carrying a start time after an activation timeout) is listed in known_findings.json.',
+        note=COMMON_NOTE + 'Assumed: each procedure call is atomic (serialisable isolation); MySQL NULL/boolean semantics as encoded in vc/sqlvc.py; integer column widths sufficient; SQL cannot be executed in this sandbox so counter-models are rows (VIOLATION ... no-failing-input-found). ' + 'Call-site facts used as preconditions are listed in evidence (non-NULL time/reason arguments; NULL end only for attempts without recorded times). Not claimed: a stale activation_timeout deactivation that wipes the start of an attempt already ended with another reason (a later report may then set a later start). Known finding replay: contracts/native/c03_late_complete_replay.py (trigger interpreter on the unpatched SQL text).',
         technique='trigger/procedure contracts on the real SQL text, sqlvc symbolic execution -> z3',
         engine='sqlvc',
         design_ref='7/C03, 2.3',
@@ -92,8 +93,8 @@ CLAIMED = {
     'C10': dict(
         text='Every procedure that changes free cores or ends/places an attempt (schedule_job, mark_job_creating, mark_job_started, unschedule_job, mark_job_complete via add_attempt, '
         'deactivate_instance, activate_instance, mark_instance_deleted) is executed symbolically path by path: delta free cores == cores x (attempt live before - live after) for every live instance, '
-        'frames for other instances/attempts, deactivate leaves free == cores. One known finding (pending-instance release asymmetry) is listed in known_findings.json.',
-        note=COMMON_NOTE + 'Assumed: each procedure call is atomic (serialisable isolation); MySQL NULL/boolean semantics as encoded in vc/sqlvc.py; integer column widths sufficient; SQL cannot be executed in this sandbox so counter-models are rows (VIOLATION ... no-failing-input-found). ' + 'Delta obligations lift to the invariant by sum localisation (paper lemma L1). Inactive instances never move. Python mirror: the delta reported by each procedure is applied to the in-memory figure once whatever the return code (fragment contracts on driver/job.py), Instance.adjust_free_cores_in_memory adds exactly it.',
+        'frames for other instances/attempts, deactivate leaves free == cores; the delta_cores_mcpu each one-attempt procedure REPORTS in its single result row equals the net change it made to the free-core row of a live instance (schedule_job on a pool instance: plus the refund of the in-memory pre-deduction). One known finding (pending-instance release asymmetry) is listed in known_findings.json.',
+        note=COMMON_NOTE + 'Assumed: each procedure call is atomic (serialisable isolation); MySQL NULL/boolean semantics as encoded in vc/sqlvc.py; integer column widths sufficient; SQL cannot be executed in this sandbox so counter-models are rows (VIOLATION ... no-failing-input-found). ' + 'Delta obligations lift to the invariant by sum localisation (paper lemma L1). Inactive instances never move. Python mirror: the delta reported by each procedure is applied to the in-memory figure once whatever the return code (fragment contracts on driver/job.py, incl. mark_job_complete), Instance.adjust_free_cores_in_memory adds exactly it.',
         technique='procedure contracts (delta obligations) on the real SQL text, sqlvc -> z3',
         engine='sqlvc',
         design_ref='7/C10, 2.3',
